@@ -52,6 +52,10 @@ TARGETS = [
     ("src_fn_Bound_exceeded_by", "src/raw/mod.rs", "Bound", "exceeded_by", ("fn",), None, False, None),
     ("src_fn_Bound_is_empty", "src/raw/mod.rs", "Bound", "is_empty", ("fn",), None, False, None),
     ("src_fn_Bound_is_inclusive", "src/raw/mod.rs", "Bound", "is_inclusive", ("fn",), None, False, None),
+] + [
+    ("src_fn_%s_%s" % (o, f), "src/raw/mod.rs", o, f, ("selfpair", ["min", "max"]), None, False, None)
+    for o in ("StreamBuilder", "StreamWithStateBuilder") for f in ("ge", "gt", "le", "lt")
+] + [
     ("src_fn_Output_prefix", "src/raw/mod.rs", "Output", "prefix", ("fn",), None, False, None),
     ("src_fn_Output_cat", "src/raw/mod.rs", "Output", "cat", ("fn",), None, False, None),
     ("src_fn_Output_sub", "src/raw/mod.rs", "Output", "sub", ("fn",), None, False, None),
